@@ -7,7 +7,7 @@ def _nontrivial(req, impl):
         return "err" not in impl.split(" ")      # every layout parsed back to a tree
     if mode == "scan":
         return impl.startswith("ok") or impl.startswith("err")
-    if mode == "nest":
+    if mode in ("nest", "nestseq"):
         return True
     # fuzz: the text is not plain ASCII or is long enough to have got past the first keyword
     return len(t[2]) > 40
@@ -27,7 +27,7 @@ CFG = {
             "mutations (repaired to valid UTF-8) of SELECT / six update forms / RULE / REGISTER / MODEL / NEURAL RELATION / ML.PREDICT texts "
             "through 15 public parser entry points, each under catch_unwind; Ok must mean the whole input was consumed for the three "
             "whole-request parsers. nest: 8 recursive constructs nested 1..100000 deep, parsed in a child process on a 2 MiB thread stack "
-            "(a stack overflow aborts the child and is reported). non-trivial: rt = every layout parsed to a tree; scan = any result; "
+            "(a stack overflow aborts the child and is reported). nestseq: histories of such texts parsed one after the other on ONE thread (1..200 rejected over-deep texts followed by probes at depths 1..128): each outcome must depend on its own text only. non-trivial: rt = every layout parsed to a tree; scan = any result; "
             "fuzz = text longer than 20 bytes; distinct = distinct request lines",
     "nontrivial": _nontrivial,
     "level_text": "Proofs about (1) a byte-level transcription of the seven hand-written token scanners: for every character "
